@@ -1196,7 +1196,7 @@ def run_extra(ctx):
     ctx.validate()
 
 EXTRA_CLAUSES = {"short_of", "from_short", "variables", "atomic_compound", "reduced_cols", "reduced_projection", "row_distribution", "row_stretch_int",
-                 "nb_addition", "nb_subtraction", "nb_all", "nb_on_off", "nb_on", "nb_off", "reduce2d_first", "reduce2d_last", "ranking",
+                 "nb_addition", "nb_subtraction", "nb_all", "nb_on_off", "nb_on", "nb_off", "reduce2d_first", "reduce2d_last", "ranking", "helpers_pure",
                  "row_stretch", "neglect_exact", "neglect_meaning", "neglect_receiver", "neglectable", "text_lines", "text_no_repeats", "text_sorted",
                  "or_get", "or_replace", "bounds_order", "bool_dtype", "compound_bounds", "sorted_by_id", "same_ids", "no_exception"}
 
